@@ -49,7 +49,7 @@ CLAIMED = {
     'C13': ('proof', 'Element-wise post-conditions of the real quantizer kernels (range, integrality, fq = int x reported scale, monotone, error '
             'below one step, truncation, zero-scale bias) over all real inputs, for bits 0,2..8 (quick: 0,2,4,8).', '3 C13'),
     'C14': ('other', 'binary_search (unbounded, recursive contract), range clauses of MATCH _integer_approximation, dilation padding, floor-based requantisation range, '
-            'definedness of the MATCH constructors; two known findings (bias-free layers, axis-1 dilation). MAUPITI and the graph rewrite are not decided.', '3 C14'),
+            'definedness of the MATCH constructors; two known findings (bias-free layers, axis-1 dilation). MAUPITI: a bounded check on concrete values only (two layers sharing a stateful weight quantizer); the graph rewrite is not decided.', '3 C14'),
     'C15': ('proof', 'All clauses of the statement are post-conditions of the real CostSpec.__getitem__/__setitem__: loop-free proofs for every '
             'registration sequence of length 0..4 with symbolic constraint verdicts, plus an unbounded-length proof through a loop invariant '
             'on the scan. Order independence follows because the post-conditions mention only the set of registrations.', '3 C15'),
@@ -68,7 +68,7 @@ CLAIMED = {
             'derived strengths); number of metrics 1..3(4) enumerated, n_epochs enumerated for the non-linear schedule clauses.', '3 C19'),
     'C20': ('other', 'Post-condition of the real _reassign_precisions for all score matrices without ties and all target compositions, sizes up to 3x2 / 2x3 (quick), '
             '3x3 / 2x4 (thorough): bounded in size, exhaustive in values; failing configurations of the unchanged tree are known findings. '
-            'optimize_prec_assignment is not decided.', '3 C20'),
+            'optimize_prec_assignment: a bounded check on concrete one-layer models only (promotion only, NE16 cost not higher), labelled bounded.', '3 C20'),
 }
 NA = {
 }
